@@ -257,8 +257,27 @@ def F36():
         cfg.allow_mutable_automata = False
 
 
+def F37():
+    import types
+    import collections
+    out = []
+    fin = {1: None}
+    d = DFA(states={0, 1}, input_symbols={"a"}, transitions={0: {"a": 1}, 1: {"a": 1}}, initial_state=0,
+            final_states=fin.keys())
+    before = d.accepts_input("")
+    fin[0] = None
+    if d.accepts_input("") != before or not isinstance(d.final_states, frozenset):
+        out.append(f"final_states=fin.keys(): stored as {type(d.final_states).__name__}, accepts_input('') {before} -> {d.accepts_input('')}")
+    rows = {0: {"a": 1}, 1: {"a": 1}}
+    for name, table in (("MappingProxyType", types.MappingProxyType(rows)), ("UserDict", collections.UserDict(rows))):
+        e = DFA(states={0, 1}, input_symbols={"a"}, transitions=table, initial_state=0, final_states={1})
+        if type(e.transitions).__name__ != "frozendict":
+            out.append(f"transitions={name}(...): stored as {type(e.transitions).__name__}")
+    return (not out, "; ".join(out) or "views / proxies are converted to frozenset / frozendict")
+
+
 ALL = dict(F12=F12, F1=F1, F19=F19, F2=F2, F3=F3, F4=F4, F5=F5, F6=F6, F7=F7, F8=F8, F9=F9, F11=F11, F12b=F12b, F20=F20, F21=F21, F10a=F10a, F10b=F10b,
-           F22=F22, F27=F27, F28=F28, F29=F29, F30=F30, F15=F15, F33=F33, F36=F36)
+           F22=F22, F27=F27, F28=F28, F29=F29, F30=F30, F15=F15, F33=F33, F36=F36, F37=F37)
 
 if __name__ == "__main__":
     names = sys.argv[1:] or list(ALL)
